@@ -7,6 +7,7 @@ mod cpu;
 mod cpufam;
 mod gdt;
 mod gen;
+mod idt;
 mod out;
 mod physmem;
 mod pt;
@@ -75,6 +76,7 @@ fn main() {
             "C20" => addr::run_c20_pure(&mut o, args.seed, args.n),
             _ => usage(),
         },
+        "idt" => idt::run_idt(&mut o, args.seed, args.n),
         "gdt" => gdt::run_gdt(&mut o, args.seed, args.n),
         "desc" => gdt::run_desc(&mut o, args.seed, args.n),
         "pte" => pte::run_pte(&mut o, args.seed, args.n),
